@@ -29,15 +29,19 @@ META = {
                   'normalised response must coincide on all drivers that can express the request, and method, decoded '
                   'path, query string, header map, content type/length, host/port/netloc/scheme, root path, peer and '
                   'body must equal the values TLC computes from the abstract request.',
-    'level_note': 'Bounded: exhaustive model check over <= 2 pool header fields x 11 targets x 8 bodies x 8 endpoints; '
-                  'legs A/B sample (TLC -simulate / seeded rng) requests with <= 3 resp. <= 7 header fields, targets <= 40 '
-                  'bytes, bodies <= 48 bytes in <= 4 chunks. Query parameters, cookies, forwarding, conditional/range '
-                  'headers, URL parts and media are compared relationally (equality of the four observations), not '
-                  'against a spec value. Requests repeating a single-valued header field are not expressible through '
-                  'PEP 3333 (server-defined) and are compared on the other three drivers only. Raw non-ASCII bytes in '
-                  'the query string are outside the modelled request space. Trusted: TLC, engine/drivers.py, CPython '
-                  'codecs, http.cookies. Leg B does not drive client->ASGI when the Host field differs from the host '
-                  'argument (finding F11 is exercised and signed in leg A).',
+    'level_note': 'Bounded: exhaustive model check over 11 targets x 8 bodies x 8 endpoints x <= 1 pool header field, and 3 '
+                  'targets x 4 bodies x 8 endpoints x <= 2 pool fields (16-field pool). Legs A/B sample (TLC -simulate / '
+                  'seeded rng) requests with <= 3 resp. <= 9 extra header fields, targets <= ~50 bytes, bodies <= 48 bytes in '
+                  '<= 5 events. Query parameters, cookies, forwarding, conditional/range headers, URL parts, route '
+                  'parameters and media are compared relationally (equality of the four observations), not against a spec '
+                  'value. Requests repeating a single-valued header field are not expressible through PEP 3333 '
+                  '(server-defined) and are compared on the other three drivers only. Outside the modelled request space: '
+                  'raw non-ASCII bytes in the query string, a Content-Length that contradicts the body, short reads of '
+                  'wsgi.input (C07), an unknown peer, the cookies= / json= / params= conveniences of the test client. '
+                  'For a request with an invalid Content-Length what reading the body yields is not compared (a server '
+                  'must reject such framing). Trusted: TLC, engine/drivers.py, CPython codecs, http.cookies. Leg B does '
+                  'not drive client->ASGI when the Host field differs from the host argument (finding F11 is exercised '
+                  'and signed in leg A).',
 }
 
 from engine import drivers
